@@ -15,7 +15,7 @@ from vmon.hooks import Patches
 
 
 def default_budget(n, m):
-    return 200 * (n + m) + 10000
+    return 100 * (n + m) + 5000
 
 
 class SolverMonitor(object):
